@@ -65,16 +65,12 @@ impl<N, E> DiGraph<N, E> {
 }
 
 // ---- derive-generated code of `Tid` (term.rs: #[derive(.., PartialEq, Eq, Hash, Clone, PartialOrd, Ord)]) ----------
-// PartialEq / Eq are restated in contracts/callgraph.vc.  Clone: a clone of a Tid is that Tid (two `String`s cloned).
+// PartialEq / Eq / Clone are restated in contracts/callgraph.vc (Clone: a clone of a Tid is that Tid, two `String`s cloned).
 // Hash / PartialOrd / Ord: restated WITHOUT specification (needed for `HashMap<Tid, _>` / `BTreeMap<Tid, _>` to type-check);
 // what the maps need of them is a named HYPOTHESIS of the unit (cgb_key_hyp), not an axiom.
 
-impl Clone for Tid {
-    #[verifier::external_body]
-    fn clone(&self) -> (r: Tid)
-        ensures r == *self
-    { unimplemented!() }
-}
+// (`impl Clone for Tid` -- `ensures r == *self` -- now sits next to PartialEq / Eq in contracts/callgraph.vc: the query's final
+// step `.tid.clone()` is verified there.)
 
 impl core::hash::Hash for Tid {
     #[verifier::external_body]
